@@ -5,6 +5,7 @@ sd=$(realpath "$1"); shift
 props="$@"
 [ -z "$props" ] && props=$(python3 -c "import json;print(json.load(open('$sd/meta.json'))['property'])")
 cd /repo && git diff --quiet || { echo "/repo not clean"; exit 2; }
+rm -rf /verif/work/evidence.bak; mkdir -p /verif/work; cp -r /verif/evidence /verif/work/evidence.bak
 git -C /repo apply "$sd/patch.diff" || { echo "patch does not apply to /repo"; exit 2; }
 for p in $props; do
   out=$(cd /verif && ./check $p --tier ${TIER:-quick} 2>&1); rc=$?
@@ -12,3 +13,4 @@ for p in $props; do
   echo "$out" | grep -E "VIOLATION|INCONCLUSIVE|violation:" | cut -c1-220 | head -6
 done
 git -C /repo checkout -q -- .
+cp /verif/work/evidence.bak/*.json /verif/evidence/; rm -rf /verif/work/evidence.bak
